@@ -567,6 +567,9 @@ func (a *Analysis) decLayout(ct *CodecType, p *Path) *PathLayout {
 				}
 			}
 			if hit {
+				if tag, okE := c.promotedName(o, in); okE {
+					return tag, o, src, true
+				}
 				name := fmt.Sprintf("%s.#%d", c.fieldName(o), in)
 				c.nested[name] = [2]int{o, in}
 				return name, o, src, true
